@@ -305,7 +305,16 @@ func runC18(ctx *harness.Ctx) {
 		withErr := 0
 		for i := 0; i < n; i++ {
 			var s string
-			switch rapid.IntRange(0, 5).Draw(t, "kind") {
+			lim := 1500
+			switch rapid.IntRange(0, 19).Draw(t, "kind") % 7 {
+			case 6:
+				// rarely (2 of 20 draws: 6 and 13): one long list or many lines - state that grows with the input
+				lim = 3500
+				if rapid.Bool().Draw(t, "many-lines") {
+					s, _ = drawManyLines(t)
+				} else {
+					s, _, _ = drawLongListSource(t)
+				}
 			case 0:
 				s = mutate.Soup(t, 16)
 				withErr++
@@ -316,8 +325,8 @@ func runC18(ctx *harness.Ctx) {
 			default:
 				s = drawValid(t).Src
 			}
-			if len(s) > 1500 {
-				s = s[:1500]
+			if len(s) > lim {
+				s = s[:lim]
 			}
 			// inputs whose FIRST token is lexed differently depending on leftover lexer state
 			if rapid.IntRange(0, 7).Draw(t, "dotlead") == 0 {
